@@ -336,6 +336,16 @@ async def execute(gen, ops, w: SockWorld, run: Run, counters=None):
         elif o == "slow_conn":
             # the next connected=True notification takes op[1] seconds in a subscriber
             w.conn_delays.append(op[1])
+        elif o == "cancel_sends":
+            # the application gives up on the sends that are still under way (a time-out
+            # around them, a cancelled request handler): their tasks are cancelled
+            n = 0
+            for t in tasks:
+                if not t.done():
+                    t.cancel()
+                    n += 1
+            log.add("SCRIPT.cancel_sends", n=n)
+            await asyncio.sleep(0)
         elif o == "slow_msg":
             # the next received message keeps its subscriber (and with it the client's
             # receive loop) busy for op[1] seconds
